@@ -35,6 +35,7 @@ Failures(T) ==
        \cup (IF T.exc # "" THEN {} ELSE
             Fail("C06", "IsAverageMarginalContributionOverOrderings", \A i \in Players : InIv(ShN(T, i, v), T.sh_all[i + 1]))
        \cup Fail("C06", "SinglePlayerEntryPointAgrees", \A i \in Players : InIv(ShN(T, i, v), T.sh_one[i + 1]) /\ T.entry_bits = 1)
+       \cup Fail("C06", "ComputingLeavesTheGameUntouched", Arr(T.lo_after) = v)
        \cup Fail("C06", "Efficiency", SumIv(T.sh_all, 1) <= Fact(N) * (v[Grand] - v[0]) /\ Fact(N) * (v[Grand] - v[0]) <= SumIv(T.sh_all, 2)))
     [] T.kind = "expl" ->
             Fail("C05", "NoException", T.exc = "")
